@@ -89,6 +89,15 @@ fn child(args: &Args) {
     hook::install_panic_hook();
     let res = pool::run_threads(&*engine, seed, &tier, first, count, workers, journal.as_deref(), true);
     let j = pool::acc_to_json(&res);
+    if let Some(dp) = args.get("--digests") {
+        // one line per case: the determinism selftest diffs these files across processes and worker counts
+        let mut txt = String::new();
+        for (i, d) in &res.digests {
+            txt.push_str(&format!("{} {:016x}\n", i, d));
+        }
+        txt.push_str(&format!("counters {:016x}\n", prng::fold_bytes(1, serde_json::to_string(&j["counters"]).unwrap().as_bytes())));
+        std::fs::write(dp, txt).unwrap_or_else(|e| harness_error(&format!("write digests: {}", e)));
+    }
     std::fs::write(&out, serde_json::to_vec(&j).unwrap()).unwrap_or_else(|e| harness_error(&format!("write {}: {}", out.display(), e)));
 }
 
